@@ -4,6 +4,7 @@
 #define _GNU_SOURCE
 #include "sim.h"
 #include "simfd.h"
+#include "simfs.h"
 #include "simtask.h"
 #include <stdlib.h>
 #include <string.h>
@@ -633,6 +634,25 @@ FILE *simfd_cookie_stream_unreadable(void)
     if (fp) open_streams++;
     return fp;
 }
+/* fstat() on a simulated descriptor: a regular file says so and knows its size, a byte source is a pipe, a socket a socket.
+   (The pinned library never asks; a maintainer's size-hint optimisation would, and must then meet what a kernel answers.) */
+#include <sys/stat.h>
+int sim_fstat(int fd, struct stat *st)
+{
+    fdent_t *e;
+    if (!is_sim(fd)) { if (simfs_is_fd(fd)) { memset(st, 0, sizeof(*st)); st->st_mode = S_IFREG | 0600; st->st_size = (off_t)simfs_fd_size(fd); st->st_blksize = 4096; return 0; } return fstat(fd, st); }
+    sim_step();
+    e = ent(fd);
+    if (!e || !e->k) { errno = EBADF; return -1; }
+    memset(st, 0, sizeof(*st));
+    st->st_blksize = 4096; st->st_nlink = 1; st->st_ino = (ino_t)(1000 + fd);
+    if (e->k->type == KO_FILE) { st->st_mode = S_IFREG | 0644; st->st_size = (off_t)e->k->len; }
+    else if (e->k->type == KO_SRC) st->st_mode = S_IFIFO | 0600;
+    else st->st_mode = S_IFSOCK | 0777;
+    tr_printf("fstat fd%d mode=%o size=%lld", fd, (unsigned)st->st_mode, (long long)st->st_size);
+    return 0;
+}
+
 /* a stdio stream over a simulated descriptor, as fdopen() or popen() give one: stdio reads ahead through the descriptor (so the
    descriptor's position runs in front of the stream's), fileno() names the descriptor, seeking works iff the descriptor is a regular
    file.  An interrupted read is restarted before stdio sees it (SA_RESTART); short reads and hard errors reach stdio as they are. */
